@@ -155,7 +155,7 @@ impl Prop for C15 {
         "case = validated tree of a generated document (all item kinds, member mixes, types nested to depth 4, unnamed arguments, empty bodies). Oracle: reference traversal computed from the returned tree by an independent walker (package, imports, item, members; method: return type then each argument followed by its type; constant / field then type; type = itself then its parameters recursively, array = element subtree first). walk_symbols at the three levels must deliver exactly that sequence (identity = variant + node address); filter_symbols(p) the satisfying sub-sequence and find_symbol(p) its first element for p in {is the k-th visited symbol (every k), is of kind K (11 kinds), name equals N (every name + an absent one)}; walk_types every type node once in source order; walk_methods / walk_args all methods / (method, argument) pairs in order. Non-trivial = tree with a type of depth >= 2 and a method with arguments; distinct by text.".into()
     }
     fn random_cases(&self, tier: Tier) -> u64 {
-        tier.pick(10_000, 300_000)
+        tier.pick(30_000, 300_000)
     }
     fn max_bytes(&self) -> usize {
         2000
